@@ -5,7 +5,7 @@ random input and structure-aware mutations of valid inputs; the call must return
 of the library's own error classes, promptly. Where the entry point has a Lean model the same request also goes through the
 model (whose no-escape theorems are in Props/C14.lean) and the two outcomes are diffed."""
 import time
-from harness.core import Case, HarnessError
+from harness.core import Case, HarnessError, Hang, time_limit
 from harness.canon import hx, tx, unhx, untx, exc_kind, DOCUMENTED
 import bip_utils as B
 from bip_utils import *  # noqa
@@ -22,6 +22,9 @@ IMPL = {}
 from harness.props.c19 import IMPL as C19_IMPL, ORACLES  # noqa
 for d in (ADDR_IMPL, CODEC_IMPL, C10_IMPL, B32_IMPL, MN_IMPL, C19_IMPL):
     IMPL.update(d)
+
+
+PROMPT_LIMIT = 20
 
 
 def pre_build():
@@ -284,12 +287,29 @@ def case_expanding_variants(s):
     return out
 
 
+PUMP_TAILS = ["/", " ", "'", "=", "1", "\u00e9"]
+
+
+def pumped_variants(s):
+    """promptness: a valid fragment repeated many times followed by a character that makes the whole string malformed (the shape on which
+    an ambiguous regular expression or a quadratic re-scan blows up), plus long single-character and two-character runs"""
+    if not 0 < len(s) <= 120:
+        return []
+    k = max(2, 400 // len(s))
+    return [s * k] + [s * k + t for t in PUMP_TAILS] + [s + s[-1] * 60 + t for t in PUMP_TAILS[:2]]
+
+
+PUMPED_FIXED = ["/" + "a" * 60 + "/", "//" + "ab//" * 16 + "/", "//0123456789abcdefghijklmnopqrstuvwxyz/", "m/" + "0'/" * 40, "m" + "/0" * 60 + "/", "0" * 200 + "x",
+                " " * 200, ("abandon " * 40).strip() + "  x", "a1" * 45 + "!", "1" * 90 + "0"]
+
+
 def str_inputs(rng, seeds, n):
     """(must-run inputs, sampled inputs)"""
-    must = list(WEIRD) + list(seeds)
+    must = list(WEIRD) + list(seeds) + list(PUMPED_FIXED)
     for s in seeds:
         must += reencoded_truncations(s)
         must += case_expanding_variants(s)
+        must += pumped_variants(s)
     out = []
     for s in seeds:
         out.append(s)
@@ -364,21 +384,32 @@ def relations(rng, tier, rpt):
         if tier == "quick":
             ins = rng.sample(ins, min(len(ins), 120))
         ins = must + ins
+        hung = 0
         for x in ins:
+            if hung >= 2:        # two witnesses per entry point are enough; do not wait out every pumped input
+                break
             if name in scrypt_budget and x in seeds:
                 if scrypt_budget[name] <= 0:
                     continue
                 scrypt_budget[name] -= 1
             t0 = time.time()
             try:
-                fn(x)
+                with time_limit(PROMPT_LIMIT):
+                    fn(x)
                 k = "ok"
+            except Hang:
+                k = "Hang"
             except Exception as ex:  # noqa
                 k = exc_kind(ex)
             dt = time.time() - t0
             total += 1
             kinds[k] = kinds.get(k, 0) + 1
-            if k != "ok" and k not in DOCUMENTED:
+            if k == "Hang":
+                hung += 1
+                bad.append({"property": "C14", "entry_point": name, "request_lines": [], "relation": "call does not terminate promptly (interrupted after %d s)" % PROMPT_LIMIT,
+                            "input": (x if kind == "str" else x.hex()), "impl_output": "no answer within %d s" % PROMPT_LIMIT, "model_output": "result or ValueError/library error class, promptly",
+                            "no_failing_input": False})
+            elif k != "ok" and k not in DOCUMENTED:
                 bad.append({"property": "C14", "entry_point": name, "request_lines": [], "relation": "exception outside the documented family",
                             "input": (x if kind == "str" else x.hex()), "impl_output": k, "model_output": "result or ValueError/library error class",
                             "no_failing_input": False})
